@@ -139,9 +139,9 @@ Definition landing (ik : list bool) (i : nat) : option nat :=
   (* number of kept instructions before i = index in the final list of the first survivor at/after i, if any *)
   if existsb (fun b => b) (List.skipn i ik) then Some (count_true (List.firstn i ik)) else None.
 Definition label_target_spec (ns : list node) (l : string) : option nat :=
-  match label_positions ns l with
-  | p :: _ => let t := instr_index_at ns p in if Nat.ltb t (ninstr ns) then Some t else None
-  | [] => None
+  match spec_target ns l with
+  | Some t => if Nat.ltb t (ninstr ns) then Some t else None
+  | None => None
   end.
 Definition compose_kept (k1 k2 : list bool) : list bool :=   (* k2 is over the kept elements of k1 *)
   (fix go k1 k2 := match k1 with
